@@ -4,5 +4,5 @@ From Ropt Require Import Base.Num Base.ListX Gen.Generated Model.Ensemble.
 Import ListNotations.
 Open Scope Q_scope.
 
-Lemma weighted_objective_dot ow objs : weighted_objective ow objs = dot ow objs.
+Lemma weighted_objective_dot ow objs : weighted_objective ow objs = rdot ow objs.
 Proof. reflexivity. Qed.
